@@ -290,6 +290,24 @@ def apply_rule(modname, fname, src):
     return fn(src)
 
 
+def swallowing_context_manager(case):
+    """F-C16-06: a with block whose body raises, under a context manager that may swallow the exception (contextlib.suppress,
+    pytest.raises, an __exit__ returning True) - anything but the harness's own non-swallowing managers."""
+    import ast as _ast
+    try:
+        tree = _ast.parse(case.get("src", ""))
+    except SyntaxError:
+        return False
+    for node in _ast.walk(tree):
+        if isinstance(node, _ast.With) and any(isinstance(n, (_ast.Raise, _ast.Assert)) for n in _ast.walk(node)):
+            if any("suppress" in _ast.unparse(item.context_expr) or "raises" in _ast.unparse(item.context_expr) or "swallow" in _ast.unparse(item.context_expr) for item in node.items):
+                return True
+    return False
+
+
+PREDICATES = {"swallowing_context_manager": swallowing_context_manager}
+
+
 def evaluate(case, info=None):
     src = case["src"]
     base = table(src)
